@@ -102,4 +102,37 @@ theorem C01_report (spec : SNode) (hs : wf spec = true) (c : Cfg) (hnc : 0 < c.n
         exact hci.popOk e he
     · simp at ho
 
+/-! ### non-vacuity: a concrete, non-trivial parameter space, values and operator results meet the hypotheses above -/
+
+/-- an integer with bounds, a resizable map of booleans with size bounds, an optional enum -/
+def exSpec01 : SNode :=
+  .sub (.cons "a" (.int 3 (.fin 4607182418800017408) (some 0) (some 10))
+       (.cons "m" (.amap (.bool false) 2 (some 1) (some 3))
+       (.cons "o" (.opt (.enum ["x", "y"] "x") false) .nil)))
+def exVal01 : VNode :=
+  .sub (.cons "a" (.int 7)
+       (.cons "m" (.amap (.cons 0 (.bool true) (.cons 5 (.bool false) .nil)))
+       (.cons "o" (.osome (.enum "y")) .nil)))
+/-- one mutation later: the integer moved to its upper bound, the map grew by the fresh key 6 up to its maximum size,
+    an element flipped, the optional was dropped -/
+def exMut01 : VNode :=
+  .sub (.cons "a" (.int 10)
+       (.cons "m" (.amap (.cons 0 (.bool true) (.cons 5 (.bool true) (.cons 6 (.bool false) .nil))))
+       (.cons "o" .onone .nil)))
+/-- a recombination of the two: the integer of the second parent, map and optional of the first -/
+def exMix01 : VNode :=
+  .sub (.cons "a" (.int 10)
+       (.cons "m" (.amap (.cons 0 (.bool true) (.cons 5 (.bool false) .nil)))
+       (.cons "o" (.osome (.enum "y")) .nil)))
+
+example : wf exSpec01 = true ∧ conf exSpec01 exVal01 = true ∧ keysBounded exMut01 = true ∧
+    mutAcc .mid exSpec01 exVal01 exMut01 = true := by decide
+example : crossAcc .mid .mid exSpec01 [exVal01, exMut01] exMix01 = true ∧ exMix01 ≠ exVal01 ∧ exMix01 ≠ exMut01 := by decide
+/-- ... so `C01_mut` and `C01_cross` apply to them -/
+example : conf exSpec01 exMut01 = true :=
+  C01_mut .mid exSpec01 exVal01 exMut01 (by decide) (by decide) (by decide) (by decide)
+example : conf exSpec01 exMix01 = true :=
+  C01_cross .mid .mid exSpec01 [exVal01, exMut01] exMix01 (by decide) (by decide)
+    (by intro p hp; simp only [List.mem_cons, List.not_mem_nil, or_false] at hp; rcases hp with rfl | rfl <;> decide) (by decide)
+
 end Cambrian.Props
